@@ -315,7 +315,9 @@ Definition do_swapfee (s : state) sender receiver denom amt : res state :=
         match get (t_minunit tb) (registry s) with
         | None => RRej
         | Some (target, ratio) =>
-            match get_token s target with
+            (* the target is resolved as a MIN UNIT (after the [fix:] commit; before it [get_token],
+               symbol first, picked a token whose symbol is that string and used its scale) *)
+            match token_by_minunit s target with
             | None => RRej
             | Some tm =>
                 let '(b, m) := lossless_swap amt ratio (t_scale tb) (t_scale tm) in
